@@ -1,4 +1,5 @@
 import WhatIs.Base.Info
+import WhatIs.Model.PgpFrame
 /-
   Oracle/C12.lean — `pgp <binary key> G <fp keyid alg size curve> <nIds> (name usage created expires)* <nSubs>
                         (fp keyid alg size curve usage created expires)* [M <owner> …]`
@@ -129,7 +130,18 @@ def holdsMutated (g : GT) (owner : String) (mutName : Bytes) (impl : Option Info
       | none => "FAILS oracle record"
 
 def handle (op : String) (args : List String) (impl : String) : Option (String × String) :=
-  if op = "pgp" then
+  if op = "pgpframes" then
+    -- pgpframes <data> => <clean|error> <n> (<tag> <body>)* : the framing layer of the copied reader vs Model/PgpFrame
+    match args with
+    | [data] =>
+      (bytesOfHexStr data).map fun d =>
+        let (ps, clean) := PgpFrame.readAll d
+        let toks := ps.foldr (fun (t, b) acc => toString t :: hexOfBytesStr b :: acc) []
+        let m := " ".intercalate ((if clean then "clean" else "error") :: toString ps.length :: toks)
+        let total := ps.foldl (fun a (_, b) => a + b.length) 0
+        (m, if total + ps.length ≤ d.length then "holds" else "FAILS bodies_bounded: the packet bodies are longer than the input")
+    | _ => none
+  else if op = "pgp" then
     match parseGT.run args with
     | some (g, _) =>
       let info : Option Info := match (impl.splitOn " ").filter (· ≠ "") with
